@@ -810,7 +810,7 @@ class Walker:
         val = ("call", cn, argv, None if pure else self._site_str(site))
         key = cn
         self.stats["opaque"][key] = self.stats["opaque"].get(key, 0) + 1
-        st.trace.append(("call", cn, tuple(args), val, site, t["span"], callee))
+        st.trace.append(("call", cn, tuple(args), val, site, t["span"], callee, len(st.facts.order)))
         for i, a in enumerate(args):
             if isinstance(a, tuple) and a[0] == "ref" and a[2]:
                 self._write(st, a[1], ("mut", val, i))
@@ -928,8 +928,10 @@ class Walker:
             ])
         if cn in ("core::str::len", "std::str::len", "str::len") or (name == "len" and callee["path"].startswith("core::str::") and len(args) == 1):
             a = args[0]
-            if isinstance(a, tuple) and a[0] == "str":
-                return ("val", Int(len(a[1].encode("utf-8"))))
+            from .panics import lit_of
+            l = lit_of(a)
+            if l is not None:
+                return ("val", Int(len(l.encode("utf-8"))))
             return ("val", ("strlen", a))
         # --- arithmetic helpers
         if name in ("min", "max") and len(args) == 2 and (tr == "std::cmp::Ord" or cn in ("std::cmp::min", "std::cmp::max")):
